@@ -11,6 +11,9 @@ import TdVerif.Lemmas.C18InferSize
 import TdVerif.Lemmas.C18Slice
 import TdVerif.Lemmas.C18CheckKeys
 import TdVerif.Lemmas.C18ParseTo
+import TdVerif.Lemmas.C18NewUnsafe
+import TdVerif.Lemmas.C18FromTd
+import TdVerif.Model.Memo
 import TdVerif.Gen.DualHelpers
 
 namespace TdVerif.Props.C18
@@ -437,7 +440,7 @@ theorem infer_size_complete (shape out : List Int) (numel : Int) (hw : Wellforme
 /-- (d) agreement with torch's own rule, for every shape and every element count `numel ≥ 0`: `infer_size_impl`
 accepts exactly the calls `Tensor.view/reshape` accept and fills the placeholder with the same value (the two
 only differ in the exception raised: AssertionError / ZeroDivisionError vs RuntimeError). -/
-theorem infer_size_matches_torch (shape : List Int) (numel : Int) (hn : 0 ≤ numel) :
+theorem infer_size_matches_torch (shape : List Int) (numel : Int) (_hn : 0 ≤ numel) :
     accepted (Gen.inferSizeImpl shape numel) = accepted (torchInfer shape numel) := by
   rw [gen_eq_infer]
   unfold infer torchInfer
@@ -708,5 +711,120 @@ example : parseToPy ⟨[.pyInt 1, .pyBool true], []⟩ = .ok (some cpu) (some tI
 example : ∃ bound, Fits sigs[0] ⟨[.dev 0], [("dtype", .dtype 3)]⟩ bound := by
   obtain ⟨b, hb, _⟩ := (parse_to_signature_iff sigs[0] ⟨[.dev 0], [("dtype", .dtype 3)]⟩ (.ok (some 0) (some 3) false none)).1 (by decide)
   exact ⟨b, hb⟩
+
+end TdVerif.Props.C18
+
+/-! ## `TensorDict._new_unsafe` (tensordict/_td.py): unchecked constructor (eager) vs its compile branch, which
+falls back to the checked constructor `TensorDict(...)` -/
+namespace TdVerif.Props.C18
+open TdVerif.NewUnsafe
+
+/-- FULL STATEMENT (false of the code): `newUnsafeCompile src batch names lock = newUnsafeEager src batch names lock`
+for every source, batch size and names.  It is false because the eager constructor checks nothing while the compile
+branch runs the checked constructor (witnesses below); what holds — and what every op of the library relies on —
+is agreement on the inputs its callers build: entries that carry the batch dims, one name per batch dim, distinct
+non-None names. -/
+theorem new_unsafe_branches_agree_partial (src : List (String × List Nat)) (batch : List Nat)
+    (names : Option (List (Option String))) (lock : Bool) (h : Pre src batch names) :
+    newUnsafeCompile src batch names lock = newUnsafeEager src batch names lock :=
+  new_unsafe_agree src batch names lock h
+
+/-- witness 1: an entry that does not start with the batch dims is stored by the eager constructor and refused
+(RuntimeError "batch dimension mismatch") by the compile branch -/
+theorem new_unsafe_shape_counterexample :
+    newUnsafeEager [("a", [2, 3])] [3] none false = .ok ⟨[3], [none], false, [("a", [2, 3])]⟩
+      ∧ newUnsafeCompile [("a", [2, 3])] [3] none false = .runtimeError := by decide
+
+/-- witness 2: repeated dimension names are stored by the eager constructor and refused (ValueError) by the compile branch -/
+theorem new_unsafe_names_counterexample :
+    newUnsafeEager [("a", [2, 3])] [2, 3] (some [some "x", some "x"]) false
+        = .ok ⟨[2, 3], [some "x", some "x"], false, [("a", [2, 3])]⟩
+      ∧ newUnsafeCompile [("a", [2, 3])] [2, 3] (some [some "x", some "x"]) false = .valueError := by decide
+
+/-- witness 3 (a laxity of the names setter that the model transcribes): names whose number of `None`s equals the number
+of batch dims are silently erased by the checked constructor, even when there are too many of them -/
+theorem new_unsafe_names_erased_counterexample :
+    newUnsafeCompile [] [2, 3] (some [some "x", none, none]) false = .ok ⟨[2, 3], [none, none], false, []⟩
+      ∧ newUnsafeEager [] [2, 3] (some [some "x", none, none]) false
+          = .ok ⟨[2, 3], [some "x", none, none], false, []⟩ := by decide
+
+example : Pre [("a", [2, 3]), ("b", [2])] [2] (some [some "t"]) := by
+  refine ⟨by decide, ?_⟩
+  intro l hl; cases hl; exact ⟨rfl, by decide⟩
+
+end TdVerif.Props.C18
+
+/-! ## `_from_tensordict` (tensordict/tensorclass.py): the key validation before a tensorclass is built from a
+tensordict, on both branches of its `is_compiling()` test; and the two Python set builders themselves -/
+namespace TdVerif.Props.C18
+open TdVerif.FromTd TdVerif.CheckKeys
+
+/-- `{k for k in xs}` and `set(xs)` (as modelled: insertion order) are the same list, for every `xs` — so the
+compile-only spellings of the set constructions in `_check_keys`, `_from_tensordict`, `TensorDictSequential.forward`
+cannot change an iteration order either. -/
+theorem set_builders_agree (l : List String) : pySetComp l = pySet l := pySetComp_eq_pySet l
+
+/-- both branches of the key validation give the same outcome (KeyError / ValueError / the same final non-tensor
+dict) for any tensordict keys, any class fields and any non-tensor dict (or None). -/
+theorem from_tensordict_branches_agree (tkeys exp : List String) (nt : Option (List (String × Bool))) :
+    fromTdCompile tkeys exp nt = fromTdEager tkeys exp nt := from_td_agree tkeys exp nt
+
+/-- an accepted call accounts for every field of the class: a tensor entry, or a binding in the non-tensor dict
+(missing fields are added as `None` placeholders) -/
+theorem from_tensordict_ok_covers (tkeys exp : List String) (nt : Option (List (String × Bool)))
+    (d' : List (String × Bool)) (h : fromTdEager tkeys exp nt = .ok d') :
+    ∀ k ∈ exp, k ∈ tkeys ∨ k ∈ d'.map (·.1) := from_td_ok_covers tkeys exp nt d' h
+
+example : fromTdEager ["a"] ["a", "b", "s"] (some [("s", false)]) = .ok [("s", false), ("b", true)] := by decide
+example : fromTdEager ["a", "s"] ["a", "s"] (some [("s", false)]) = .keyError := by decide
+example : fromTdEager ["a", "s"] ["a", "s"] (some [("s", true)]) = .ok [] := by decide
+example : fromTdCompile ["a", "zz"] ["a"] none = .valueError := by decide
+
+end TdVerif.Props.C18
+
+/-! ## memoised class predicates (`_is_tensorclass`, `_is_non_tensor`, `_pass_through_cls`, `_is_tensor_collection`):
+memo switched off under torch.compile -/
+namespace TdVerif.Props.C18
+open TdVerif.Memo
+
+/-- `_is_tensorclass`: its compile branch (memo read, not written) returns what the eager branch returns, in every state
+of the memo -/
+theorem memo_read_agree (w : World) (c : Nat) : (compileRead w c).1 = (eager w c).1 := by
+  unfold compileRead eager; cases memoGet w.memo c <;> rfl
+
+/-- FULL STATEMENT (false of the code): `(compileFresh w c).1 = (eager w c).1` in every state.  It is false when the memo
+is stale (witness below); it holds — and the eager branch keeps the invariant — whenever the memo only holds what the
+classes say. -/
+theorem memo_fresh_agree_partial (w : World) (c : Nat) (h : Inv w) :
+    (compileFresh w c).1 = (eager w c).1 ∧ Inv ⟨w.truth, (eager w c).2⟩ := by
+  unfold compileFresh eager
+  cases hg : memoGet w.memo c with
+  | some b => exact ⟨(h c b hg).symm, h⟩
+  | none =>
+    refine ⟨rfl, ?_⟩
+    intro c' b' hb
+    simp only [memoGet, List.find?_cons] at hb
+    by_cases hc : c = c'
+    · subst hc; simp at hb; exact hb.symm
+    · have : decide ((c, w.truth c).1 = c') = false := by simpa using hc
+      simp only [this] at hb
+      exact h c' b' hb
+
+/-- witness: a class attribute changed after the first query — the eager branch answers from the stale memo, the compile
+branch recomputes (replayed on the implementation on every run with a scratch class) -/
+theorem memo_stale_counterexample :
+    (eager ⟨fun _ => true, [(0, false)]⟩ 0).1 = false ∧ (compileFresh ⟨fun _ => true, [(0, false)]⟩ 0).1 = true := by
+  decide
+
+example : Inv ⟨fun c => c == 1, [(1, true), (2, false)]⟩ := by
+  intro c b h
+  simp only [memoGet, List.find?_cons] at h
+  by_cases h1 : c = 1
+  · subst h1; simp at h; simp [← h]
+  · by_cases h2 : c = 2
+    · subst h2; simp at h; simp [← h]
+    · have e1 : decide ((1, true).1 = c) = false := by simp; omega
+      have e2 : decide ((2, false).1 = c) = false := by simp; omega
+      simp [e1, e2] at h
 
 end TdVerif.Props.C18
